@@ -102,6 +102,49 @@ class CreateProp(Prop):
         "TLC evaluates the TLA+ reference operators correctly",
     ]
 
+    def corruptions(self, recs):
+        import copy
+        from .mutate import first
+        out = []
+        ok = lambda r: r.get("op") == "create" and r.get("status") == "ok" and r["meta"].get("decodable")
+        pid = self.pid
+        for r in first(recs, lambda r: ok(r) and len(r["meta"].get("pieces", [])) >= 2 and r["version"] != 2
+                       and (pid == "C01" or r["meta"]["has_files"])):
+            m = copy.deepcopy(r)
+            m["meta"]["pieces"][0], m["meta"]["pieces"][1] = m["meta"]["pieces"][1], m["meta"]["pieces"][0]
+            clause = {"C01": "C01.pieces", "C15": "C15.pieces", "C03": "C03.pieces"}.get(pid)
+            if clause:
+                out.append((m, clause))
+        for r in first(recs, lambda r: ok(r) and r["meta"].get("leaves") and r["meta"]["leaves"][0]["length"] > 0):
+            if pid == "C02":
+                m = copy.deepcopy(r)
+                m["meta"]["leaves"][0]["root"] = [["Z", 0, 7, 0]]
+                out.append((m, "C02.root"))
+                m = copy.deepcopy(r)
+                m["meta"]["leaves"][0]["length"] += 1
+                out.append((m, "C02.tree"))
+        for r in first(recs, lambda r: ok(r) and len(r["meta"].get("files", [])) >= 2):
+            m = copy.deepcopy(r)
+            m["meta"]["files"][0]["length"] += 1
+            clause = {"C01": "C01.list", "C15": "C15.list", "C03": "C03.order"}.get(pid)
+            if clause:
+                out.append((m, clause))
+        if pid in ("C08", "C09"):
+            for r in first(recs, ok):
+                m = copy.deepcopy(r)
+                m["meta"]["name"] = "00"
+                if pid == "C08":
+                    out.append((m, "C08.name"))
+                else:
+                    m["sig"] = "corrupted"
+                    out.append((m, "C09.fresh"))
+        if pid == "C10":
+            for r in first(recs, lambda r: r.get("op") == "hashers"):
+                m = copy.deepcopy(r)
+                m["hashers"][0]["rootsig"] = "00"
+                out.append((m, "C10.hashers"))
+        return out
+
     def nontrivial(self, case):
         if case.get("op") == "hashers":
             return ("h", case["size"], case["P"])
